@@ -2,7 +2,8 @@
 //! and every path. Request: `C25 id <identity programs, newline separated, hex> <value JSON hex>`;
 //! each program must print `true`. Answer: the run line of every program (both evaluators, as in
 //! C23) joined by `|`, then `ID-OK` / `ID-FAIL` (in-process verdict: every run is exactly `true`).
-use crate::c23::{collapse_input, gen_json, run_full, run_generic};
+use crate::c23::{collapse_input, gen_family, FAMILY_FIXED, gen_json, run_full, run_generic, ORDER_PROGS};
+use succinctly::jq::OwnedValue;
 use crate::rng::Rng;
 use crate::util::*;
 use crate::Tier;
@@ -35,8 +36,155 @@ pub const IDENTITIES: &[&str] = &[
     "[..] as $a | all(range(0; ($a | length) - 1); [$a[.] < $a[. + 1], $a[.] == $a[. + 1], $a[.] > $a[. + 1]] | map(select(.)) | length == 1)",
 ];
 
+// ---- jq's total order, written independently of the implementation's comparator (Model/JqValue.lean
+// `JV.cmp`: ranks; arrays lexicographic; objects by sorted key lists, then values in sorted-key order)
+fn rank(v: &OwnedValue) -> u8 {
+    match v {
+        OwnedValue::Null => 0,
+        OwnedValue::Bool(false) => 1,
+        OwnedValue::Bool(true) => 2,
+        OwnedValue::Int(_) | OwnedValue::Float(_) | OwnedValue::NumberLiteral(..) => 3,
+        OwnedValue::String(_) => 4,
+        OwnedValue::Array(_) => 5,
+        OwnedValue::Object(_) => 6,
+    }
+}
+
+pub fn model_cmp(a: &OwnedValue, b: &OwnedValue) -> std::cmp::Ordering {
+    use std::cmp::Ordering::*;
+    let (ra, rb) = (rank(a), rank(b));
+    if ra != rb {
+        return ra.cmp(&rb);
+    }
+    match (a, b) {
+        (OwnedValue::String(x), OwnedValue::String(y)) => x.as_bytes().cmp(y.as_bytes()),
+        (OwnedValue::Array(x), OwnedValue::Array(y)) => {
+            for (p, q) in x.iter().zip(y.iter()) {
+                let c = model_cmp(p, q);
+                if c != Equal {
+                    return c;
+                }
+            }
+            x.len().cmp(&y.len())
+        }
+        (OwnedValue::Object(x), OwnedValue::Object(y)) => {
+            let mut kx: Vec<&String> = x.keys().collect();
+            let mut ky: Vec<&String> = y.keys().collect();
+            kx.sort();
+            ky.sort();
+            let c = kx.cmp(&ky);
+            if c != Equal {
+                return c;
+            }
+            for k in kx {
+                let c = model_cmp(&x[k], &y[k]);
+                if c != Equal {
+                    return c;
+                }
+            }
+            Equal
+        }
+        _ if ra == 3 => {
+            let (x, y) = (a.as_f64().unwrap_or(f64::NAN), b.as_f64().unwrap_or(f64::NAN));
+            match (a.as_i64(), b.as_i64()) {
+                (Some(i), Some(j)) if !matches!(a, OwnedValue::Float(_)) && !matches!(b, OwnedValue::Float(_)) => i.cmp(&j),
+                _ => {
+                    if x.is_nan() {
+                        Less
+                    } else if y.is_nan() {
+                        Greater
+                    } else {
+                        x.partial_cmp(&y).unwrap_or(Equal)
+                    }
+                }
+            }
+        }
+        _ => Equal,
+    }
+}
+
+fn values_of(prog: &str, input: &[u8]) -> Option<Vec<OwnedValue>> {
+    use succinctly::jq::eval_generic::{self, GenericResult};
+    let expr = jq::parse(prog).ok()?;
+    let index = succinctly::json::JsonIndex::build(input);
+    let r = eval_generic::eval_with_cursor(&expr, index.root(input));
+    if matches!(r, GenericResult::Error(_) | GenericResult::Partial(..)) {
+        return None;
+    }
+    Some(r.collect_owned())
+}
+
+/// the in-process order oracle: the outputs of `sort`, `unique`, `min`, `max`, `group_by(.)`, `<`, `>`
+/// on the input array are checked against `model_cmp` (never against the implementation's comparator)
+fn order_oracle(input: &[u8]) -> bool {
+    use std::cmp::Ordering::*;
+    let Some(items) = values_of(".", input).and_then(|v| v.into_iter().next()).and_then(|v| v.as_array().cloned()) else {
+        return false;
+    };
+    let arr = |p: &str| values_of(p, input).and_then(|v| v.into_iter().next()).and_then(|v| v.as_array().cloned());
+    let one = |p: &str| values_of(p, input).and_then(|v| v.into_iter().next());
+    let key = |v: &OwnedValue| v.to_json();
+    let mut want: Vec<String> = items.iter().map(key).collect();
+    want.sort();
+    let mut ok = true;
+    for p in ["sort", "sort_by(.)", "reverse | sort"] {
+        let Some(s) = arr(p) else { return false };
+        ok &= s.windows(2).all(|w| model_cmp(&w[0], &w[1]) != Greater);
+        let mut got: Vec<String> = s.iter().map(key).collect();
+        got.sort();
+        ok &= got == want;
+    }
+    for p in ["unique", "unique_by(.)"] {
+        let Some(u) = arr(p) else { return false };
+        ok &= u.windows(2).all(|w| model_cmp(&w[0], &w[1]) == Less);
+        ok &= items.iter().all(|x| u.iter().any(|y| model_cmp(x, y) == Equal));
+    }
+    if !items.is_empty() {
+        let (Some(mn), Some(mx)) = (one("min"), one("max")) else { return false };
+        ok &= items.iter().all(|x| model_cmp(&mn, x) != Greater && model_cmp(&mx, x) != Less);
+    }
+    if let Some(g) = arr("group_by(.)") {
+        let groups: Vec<Vec<OwnedValue>> = g.iter().filter_map(|x| x.as_array().cloned()).collect();
+        ok &= groups.iter().all(|gr| gr.windows(2).all(|w| model_cmp(&w[0], &w[1]) == Equal));
+        ok &= groups.windows(2).all(|w| !w[0].is_empty() && !w[1].is_empty() && model_cmp(&w[0][0], &w[1][0]) == Less);
+    } else {
+        return false;
+    }
+    // < and > on every ordered pair
+    let Some(lt) = arr("[.[] as $a | .[] as $b | $a < $b]") else { return false };
+    let Some(gt) = arr("[.[] as $a | .[] as $b | $a > $b]") else { return false };
+    let mut idx = 0;
+    for a in &items {
+        for b in &items {
+            let c = model_cmp(a, b);
+            ok &= lt.get(idx) == Some(&OwnedValue::Bool(c == Less));
+            ok &= gt.get(idx) == Some(&OwnedValue::Bool(c == Greater));
+            idx += 1;
+        }
+    }
+    ok
+}
+
 pub fn exec(a: &[&str]) -> String {
     match a[0] {
+        // ord <programs hex> <array hex>: run lines of the order-sensitive programs (both evaluators) and
+        // the in-process order oracle
+        "ord" => {
+            let progs = String::from_utf8(parse_bytes(a[1])).expect("utf8");
+            let input = parse_bytes(a[2]);
+            let mut parts = Vec::new();
+            for p in progs.split('\n') {
+                let Ok(expr) = jq::parse(p) else {
+                    parts.push("PARSE-ERROR".to_string());
+                    continue;
+                };
+                let f = std::panic::catch_unwind(|| run_full(&expr, &input)).unwrap_or_else(|_| "PANIC".into());
+                let g = std::panic::catch_unwind(|| run_generic(&expr, &input)).unwrap_or_else(|_| "PANIC".into());
+                parts.push(if f == g { f } else { format!("EVALS-DISAGREE full={f} generic={g}") });
+            }
+            let ok = std::panic::catch_unwind(|| order_oracle(&input)).unwrap_or(false);
+            format!("{}|{}", parts.join("|"), if ok { "ID-OK" } else { "ID-FAIL" })
+        }
         "id" => {
             let progs = String::from_utf8(parse_bytes(a[1])).expect("utf8");
             let input = parse_bytes(a[2]);
@@ -63,6 +211,13 @@ pub fn exec(a: &[&str]) -> String {
 
 pub fn gen(tier: Tier, r: &mut Rng, emit: &mut dyn FnMut(String)) {
     let n = if tier == Tier::Quick { 1_500 } else { 40_000 };
+    // the order class: object families over one key set with permuted insertion orders
+    let oprogs = ORDER_PROGS.join("\n");
+    emit(format!("C25 ord {} {}", hex_bytes(oprogs.as_bytes()), hex_bytes(FAMILY_FIXED.as_bytes())));
+    for _ in 0..(if tier == Tier::Quick { 300 } else { 10_000 }) {
+        let v = gen_family(r);
+        emit(format!("C25 ord {} {}", hex_bytes(oprogs.as_bytes()), hex_bytes(v.as_bytes())));
+    }
     let progs = IDENTITIES.join("\n");
     for i in 0..n {
         let raw = gen_json(r, 2 + (i % 3) as u32);
